@@ -2086,6 +2086,20 @@ class Library(Instance):
 
         collect_subenties(top_entity)
 
+        # design units share the namespace of the library, two different
+        # templates with the same name (e.g. entity classes created by a factory
+        # function) would replace each other
+        used_names = set()
+
+        for entity in entities:
+            if entity.extern():
+                continue
+
+            assert (
+                entity.name().lower() not in used_names
+            ), f"the design contains two different entities named '{entity.name()}'"
+            used_names.add(entity.name().lower())
+
         return Library(
             top_entity,
             [*entities],
